@@ -181,7 +181,7 @@ func cdxTreeAssembly(c *Ctx, prop string) {
 					continue
 				}
 				n++
-				c.bad(R, d.name+"#"+cpy.m[strings.LastIndex(cpy.m, ".")+1:], c.P.Pos(cpy.pos.Pos()), fmt.Sprintf("the loop appends a by-value copy of an entry of %s while it also attaches children through entries of %s: a component copied into its parent before its own children are attached loses them (containment trees deeper than two levels are flattened unless edges come child-first)", cpy.m, cpy.m))
+				c.bad(R, d.name+"#"+canonField(cpy.m[strings.LastIndex(cpy.m, ".")+1:]), c.P.Pos(cpy.pos.Pos()), fmt.Sprintf("the loop appends a by-value copy of an entry of %s while it also attaches children through entries of %s: a component copied into its parent before its own children are attached loses them (containment trees deeper than two levels are flattened unless edges come child-first)", cpy.m, cpy.m))
 			}
 			return true
 		})
